@@ -334,6 +334,9 @@ def eval_sched(ctx, cases, env=None, variant=None):
     if use_model:
         model = ctx.model("c11_sched", [[str(CAP)] + sum((model_fields(s) for s in st), []) for st in cases])
         model_rep = ctx.model("c11_sched", [[str(CAP)] + sum((model_fields(s, True) for s in st), []) for st in cases])
+        dead = [st for st, m in zip(cases, model) if m in ("DIED", "TIMEOUT")]
+        if dead:
+            raise core.CheckBroken("the model runner died on %d cases, first %r" % (len(dead), dead[0]))
         mruns = [parse_model(m) for m in model]
         want_hang = [bool(r) and all(x["verdict"] == "stuck" for x in r) for r in mruns]
         # the class predicate of the finding: python (known_inline/flow) and Coq (Known.known_class/counts) must agree
@@ -632,7 +635,21 @@ def crosscheck(ctx, entry, cases, lines):
     return len(idx)
 
 
+def raise_stack():
+    """the extracted runner recurses as deep as the payload is long (non-tail-recursive list functions)"""
+    import resource
+    soft, hard = resource.getrlimit(resource.RLIMIT_STACK)
+    want = 1 << 30
+    if soft != resource.RLIM_INFINITY and soft < want:
+        new = want if hard == resource.RLIM_INFINITY or hard >= want else hard
+        try:
+            resource.setrlimit(resource.RLIMIT_STACK, (new, hard))
+        except (ValueError, OSError):
+            pass
+
+
 def run(ctx):
+    raise_stack()
     try:
         return run_(ctx)
     finally:
